@@ -283,6 +283,8 @@ def _unit_or_sqrt(sq):
         return SSqrt(e)
     from . import solve
     c = ctx()
+    if not c.__dict__.get("_ortho_done"):
+        return SSqrt(e)            # only vectors produced by rotations can be unit vectors by construction
     rel, _ = solve.slice_for(c.pc_light() if c.__dict__.get("heavy") else c.pc(), [e])
     r, _, _ = solve.check(rel + [e != 1], timeout=3.0)
     if r == "unsat":
